@@ -533,6 +533,7 @@ func (e *Engine) installSpecObjs(pkg *types.Package) {
 	mk("hashedIsInt", []types.Type{anyT, types.Typ[types.Int], types.Typ[types.Uint64]}, boolT, false)
 	mk("called", []types.Type{types.Typ[types.String]}, boolT, false)
 	mk("lastErr", []types.Type{types.Typ[types.String]}, types.Universe.Lookup("error").Type(), false)
+	mk("lastStr", []types.Type{types.Typ[types.String]}, types.Typ[types.String], false)
 	mk("tarCount", []types.Type{anyT}, types.Typ[types.Int], false)
 	mk("tarPos", []types.Type{anyT}, types.Typ[types.Int], false)
 	mk("tarSrc", []types.Type{anyT}, anyT, false)
